@@ -6,7 +6,7 @@ import numpy as np
 
 import common
 from common import zl, ql, bl, lst, zlist, qlist, frac, natl
-from translate import Anchors, Untranslatable
+from translate import Anchors, Untranslatable, find_def
 from props.C11 import norm
 
 PID = "C20"
@@ -40,6 +40,25 @@ def anchors(a: Anchors):
            lambda fn: all(x in norm(ast.unparse(fn)) for x in ["depth=tuple((min(s,d)fors,dinzip(image.shape,depth)))", "depth=depth,trim=False,boundary=boundary"]))
     a.expr("log_depth", PCN, "LoGPicker.get_params_and_depth", ("assign", "depth"), {"sigma_px": "Q"}, want="Z")
     a.expr("dog_depth", PCN, "DoGPicker.get_params_and_depth", ("assign", "depth"), {"sigma1_px": "Q"}, want="Z")
+    a.expr("log_sigma_px", PCN, "LoGPicker.get_params_and_depth", ("assign", "sigma_px"), {"sigma": "Q", "scale": "Q"}, env={"self._sigma": ("sigma", "Q")}, want="Q")
+    a.expr("dog_sigma_low_px", PCN, "DoGPicker.get_params_and_depth", ("assign", "sigma1_px"), {"sigma": "Q", "scale": "Q"}, env={"self._sigma_low": ("sigma", "Q")}, want="Q")
+    a.expr("dog_sigma_high_px", PCN, "DoGPicker.get_params_and_depth", ("assign", "sigma2_px"), {"sigma": "Q", "scale": "Q"}, env={"self._sigma_high": ("sigma", "Q")}, want="Q")
+
+    def lengths_in_voxels(src_tree):
+        m = norm(ast.unparse(find_def(src_tree, "ZNCCTemplateMatcher.pick_molecules")))
+        lg = norm(ast.unparse(find_def(src_tree, "LoGPicker.pick_in_chunk")))
+        dg = norm(ast.unparse(find_def(src_tree, "DoGPicker.pick_in_chunk")))
+        dgp = norm(ast.unparse(find_def(src_tree, "DoGPicker.get_params_and_depth")))
+        lgp = norm(ast.unparse(find_def(src_tree, "LoGPicker.get_params_and_depth")))
+        fm = norm(ast.unparse(find_def(src_tree, "find_maxima")))
+        mf = norm(ast.unparse(find_def(src_tree, "maximum_filter")))
+        return ("min_distance=min_distance/scale" in m and "min_score=min_score" in m and "boundary=boundary" in m
+                and "pos=find_maxima(img_filt,sigma,0.0)" in lg and "return({'sigma':sigma_px},depth)" in lgp
+                and "pos=find_maxima(img_filt,sigma_low,0.0)" in dg and "return({'sigma_low':sigma1_px,'sigma_high':sigma2_px},depth)" in dgp
+                and "img_max_maxfilt=maximum_filter(img,min_distance)" in fm and "is_maxima=(img_max_maxfilt==img)&(img>min_intensity)" in fm
+                and "ifradius<1:returnimage" in mf and "r_int=int(np.ceil(radius))" in mf and "<=radius**2" in mf)
+    a.raw("picker_lengths_reach_the_kernels_in_voxels", PCN, "", "min_distance / scale, sigma / scale are what find_maxima / the filters receive",
+          lambda node, src: "Definition picker_lengths_reach_the_kernels_in_voxels : bool := " + ("true" if lengths_in_voxels(node) else "false") + ".")
     a.expr("matcher_offset", PCN, "ZNCCTemplateMatcher.pick_in_chunk", ("assign", "offset"), {"s": "Z"}, env={"np.array(templates[0].shape)": ("s", "Z")}, want="Q")
     a.expr("matcher_depth", PB, "BaseTemplateMatcher.get_params_and_depth", ("assign", "depth"), {"s": "Z"},
            env={"np.array(templates[0].shape)": ("s", "Z")}, want="Z",
